@@ -503,7 +503,46 @@ func (tr *Trans) loopScope(l *ILLoop) *Scope {
 			sc.vars["nvisited"] = TExpr{E: cur(v), Sort: "Int"}
 		}
 	}
+	// "outervisited": the visited set of the innermost enclosing map range / iterator loop
+	var encl *ILLoop
+	for _, o := range tr.il.Loops {
+		if o != l && o.Body[l.Head] && (encl == nil || len(o.Body) < len(encl.Body)) {
+			has := false
+			for _, v := range o.Modified {
+				if strings.HasPrefix(v.Name, "visited$") && !modifiedIn(l, v) {
+					has = true
+				}
+			}
+			if has {
+				encl = o
+			}
+		}
+	}
+	if encl != nil {
+		for _, v := range encl.Modified {
+			if strings.HasPrefix(v.Name, "visited$") && !modifiedIn(l, v) {
+				own := false
+				for _, o := range tr.il.Loops {
+					if o != encl && o != l && encl.Body[o.Head] && len(o.Body) < len(encl.Body) && modifiedIn(o, v) {
+						own = true // belongs to a loop nested in encl (a sibling of l)
+					}
+				}
+				if !own {
+					sc.vars["outervisited"] = TExpr{E: cur(v), Sort: v.Sort}
+				}
+			}
+		}
+	}
 	return sc
+}
+
+func modifiedIn(l *ILLoop, v *MVar) bool {
+	for _, w := range l.Modified {
+		if w == v {
+			return true
+		}
+	}
+	return false
 }
 
 // newNames collects identifiers v for which the formula contains the conjunct new(v).
